@@ -86,4 +86,28 @@ TABLE = {
         "note": _NOTE + " Relational equivalence of cached and uncached runs over all histories is not decided.",
         "technique": "writer-table vs reader-table agreement (mutable cells vs cache key), CFG reachability (no store after padding), guard containment, def-use of the size hash",
     },
+    "C01": {
+        "text": "Every control-sequence template of _ctlseqs.py is constant-folded from the syntax tree and parsed against an ECMA-48 template grammar (complete "
+                "CSI/OSC/APC/DCS, placeholders only in parameter/payload positions); no literal escapes elsewhere; OSC 1337 openers closed by ST; every operand of a raw "
+                "cursor/erase template proven >= 1 (size clamp or dominating guard); per renderer the newline-bearing fragments occur rendered_height-1 times in recognised "
+                "idioms, lines end with the style's cursor policy (kitty C=1 + CUF w; iterm2 doNotMoveCursor iff konsole advance; block SGR reset), chunked transmissions terminate.",
+        "note": _NOTE + " That the payload paints c x r cells, wrapping/scrolling and the konsole/iterm2 cursor-movement model are terminal behaviour - not decided.",
+        "technique": "constant folding + grammar check of control-sequence templates, sign analysis of template operands, idiom-based line-structure rules, who-may-write on the escape alphabet",
+    },
+    "C03": {
+        "text": "Chunk protocol decided on the generator's look-ahead structure (or on recognised alternatives via polynomial comparison of position vs length); "
+                "mode/format and control-key provenance tables (s, v, c, r, z, f; strip length = width*cell_height*bpp); buffer typestate where size= is advertised "
+                "(seek/tell/seek/read; seek/save/truncate/tell per reused strip buffer); the read-from-file gate has exactly the documented conjuncts; the o=z flag is "
+                "set under state-only conditions because the ControlData is shared across strips.",
+        "note": _NOTE + " Decoded payload == image pixels and strip stitching are runtime data (zlib/base64/PNG) - not decided.",
+        "technique": "protocol rule over a generator (look-ahead idiom / affine boundary evaluation), key-provenance and table agreement, call-order typestate on buffers, guard-set comparison",
+    },
+    "C12": {
+        "text": "Request/stop-predicate/drain/parser agreement at every query_terminal call site (DA1 sentinel last; complete vs prefix predicate by reply alphabet; "
+                "prefix reads drained inside the same lock block; flush only before the request); request Ps <-> response Ps tables; response regexes' languages decided "
+                "exactly by DFA equality on constant-folded patterns; swap applies to every source of the text-area size; per-component colour scaling; fallbacks "
+                "(disabled -> None first, guarded responses, bounded reads); style preference table and support rules.",
+        "note": _NOTE + " Reply timing, select behaviour and byte-stream splits are schedules over a device - not decided.",
+        "technique": "sibling call-site agreement, constant folding + regular-language equality of response patterns, CFG dominance (swap covers all sources), def-use of the colour scale",
+    },
 }
